@@ -101,6 +101,10 @@ def cases(tier, seed):
     # (g) rings nested through islands
     specs.append({"id": "g:nested", "exprs": progs.nested_exprs()})
     specs.append({"id": "g:nested-laws", "exprs": progs.nested_laws(), "deg": True})
+    # curved pairs whose intersection is a two-segment lens / cap (one arc of each boundary)
+    for a, b in (("c16", "c16near"), ("lens", "lens2"), ("c4", "fcap"), ("scub", "ftri"), ("scub", "c8")):
+        x, y = progs.L("Q." + a), progs.L("Q." + b)
+        specs.append({"id": "e2:%s,%s" % (a, b), "exprs": [[o, x, y] for o in progs.OPS4] + [["&", y, x], ["-", y, x]], "cost": 20})
     # (f) singleton rows and degenerate tier
     core = [progs.L("P.sqA#int"), progs.L("P.triA#int@cw"), ["PC", "hollow", "int"], ["PC", "two", "int"], ["PC", "xtwo", "int"]]
     if tier == "thorough":
@@ -223,6 +227,33 @@ def judge_curved(e, sets, curves, stats, hist):
                 break
         if any(t == "membership" for t, _ in fails):
             break
+    # thin regions below the grid pitch: mid-points between crossing points of the leaf
+    # boundaries (inside the lens/cap they bound), judged with a small clearance
+    if not any(t == "membership" for t, _ in fails):
+        xs = []
+        for i in range(len(sets)):
+            for j in range(i + 1, len(sets)):
+                for a in sets[i]:
+                    for b in sets[j]:
+                        for sa in a.segs:
+                            for sb in b.segs:
+                                for c in rg.bez_bez_crossings(sa, sb, tol=F(1, 10**8)):
+                                    if c[0] != "overlap":
+                                        xs.append(rg.bez_eval(sa, c[0]))
+        mids = [((p[0] + q[0]) / 2, (p[1] + q[1]) / 2) for i, p in enumerate(xs) for q in xs[i + 1 :]][:28]
+        for w in mids:
+            if any(c.near(w, size / 2000) for c in curves):
+                continue
+            exp = model.contains(w)
+            if exp == rg.ON:
+                continue
+            nj += 1
+            got = Rm.contains(w, size / 10**6)
+            q = (float(w[0]), float(w[1]))
+            st, val = oc.call_limited(lambda: q in R, 60)
+            if got != exp or st != "ok" or bool(val) != (exp == rg.IN):
+                fails.append(("membership", "point %s (between two crossing points) should be %s the result; reference reading %s, `in` gives %r" % (oc.fmt_pt(w), exp, got, val if st == "ok" else st)))
+                break
     stats["witnesses"] = stats.get("witnesses", 0) + nj
     return fails
 
